@@ -165,12 +165,13 @@ def case(rng):
         a = gv(3)
         b = a if rng.random() < 0.5 else gv(3)
         return ["(equal? '%s '%s)" % (a, b)], ["V #t" if a == b else "V #f"]
-    if p == "equal?" and rng.random() < 0.3:
+    if p == "equal?" and rng.random() < 0.5:
         # the SAME structure with ONE leaf replaced by a near-equal datum: a number of the other exactness (2 / 2.0, 1/2 / 0.5),
         # a string for a symbol, a character for a symbol, #t for a non-#f value: equal? is eqv? on the leaves
         twins = [("2", "2.0"), ("1/2", "0.5"), ("0", "0.0"), ("a", '"a"'), ("a", "#\\a"), ("1", "#t"), ("()", "#f"), ("-1", "-1.0"),
                  # ... and leaves that ARE equal although not the same object: strings, characters, ratios, reals
-                 ('"ab"', '"ab"'), ('""', '""'), ("#\\a", "#\\a"), ("1/2", "1/2"), ("2.5", "2.5"), ('"ab"', '"ab"')]
+                 ('"ab"', '"ab"'), ('""', '""'), ("#\\a", "#\\a"), ("1/2", "1/2"), ("2.5", "2.5"), ('"ab"', '"ab"'),
+                 ('"x y"', '"x y"'), ('"ab"', '"ab"'), ("#\\space", "#\\space"), ('"(a)"', '"(a)"')]
         x, y = rng.choice(twins)
         if rng.random() < 0.5: x, y = y, x
         def shape(d, leaf):
